@@ -53,6 +53,11 @@ def run(ctx: Ctx, rep: Report) -> None:
     override(ctx, rep, gates)
     triad(ctx, rep, gates)
     gradshape(ctx, rep, gates)
+    # order-sensitive folds: tensor factors by qudit, inserts by index
+    from ..rules.foldorder import rule_insertord
+    from ..rules.foldorder import rule_kronfold
+    rule_kronfold(ctx, rep, ('bqskit/ir/gates/', 'bqskit/qis/'), 3)
+    rule_insertord(ctx, rep, ('bqskit/ir/gates/',), 1)
 
 
 def override(ctx: Ctx, rep: Report, gates: list[ClassInfo]) -> None:
